@@ -133,3 +133,31 @@ def dcc_effect(data, level):
     if 1 not in fields or int.from_bytes(fields[1], "big") != 1:
         return ("none",)
     return ("disable", int.from_bytes(fields.get(0, b"\x00"), "big"))
+
+
+def possible_invoke(data, level):
+    """For a frame that is NOT judged (reserved bits, odd header ...): the invoke ID a lenient device might read out of it
+    if it took it for a confirmed request, or None.  Used only to widen what a device may answer (a device that answers
+    such a frame uses up none of the replies owed to the well-framed requests)."""
+    if level != "lan":
+        if len(data) < 4 or data[0] != 0x81:
+            return None
+        data = data[4:]
+    if len(data) < 2:
+        return None
+    ctl = data[1]
+    p = 2
+    if ctl & 0x20:
+        if len(data) < p + 3:
+            return None
+        p += 3 + data[p + 2]
+    if ctl & 0x08:
+        if len(data) < p + 3:
+            return None
+        p += 3 + data[p + 2]
+    if ctl & 0x20:
+        p += 1
+    apdu = data[p:]
+    if len(apdu) >= 3 and (apdu[0] >> 4) == 0:
+        return apdu[2]
+    return None
